@@ -44,6 +44,7 @@ func init() {
 func bitsWords(v float64) []int { return encF(v) }
 
 func runFloat(sw *shardWriter, j *jb, input []byte, st *genStats) (tier int, wide bool) {
+	input = relayout(input)
 	orig := append([]byte{}, input...)
 	panics := 0
 	j.reset()
